@@ -143,6 +143,7 @@ structure TypeEntry where
   begin : Nat
   fileName : Name := []         -- `RootFile().Name()`
   root : Node
+  fileText : Name := []         -- `RootFile().Content()` (fix F-38; the checker dump leaves it empty: see `typeGoesFirst`)
   deriving Repr, Inhabited
 
 /-- the root schema: its node tree (absent for an empty schema) and the type table (a Go map: any order) -/
@@ -165,11 +166,15 @@ def isUnnamed (n : Name) : Bool := n.head? == some 35
 
 /-- `typeGoesFirst`: named types by name (`#` sorts before `@`: unnamed types first); two unnamed types by the place
 in the text they were made from — name of the root file, `Begin()` of the root node's basis lexeme — and by name (an
-address) only as a last resort -/
+address) only as a last resort; fix F-38 puts the TEXT of the files in front of that last resort (objects created
+with equal file names). The tie `c04-model` creates every object with its own file name, where that branch cannot be
+taken (equal names = the same file = equal texts); equal names with different texts are explored on the real code by
+`c11-history` (multi-error stream, file-name modes) -/
 def typeGoesFirst (a b : TypeEntry) : Bool :=
   if !isUnnamed a.name || !isUnnamed b.name then bytesLt a.name b.name
   else if a.fileName != b.fileName then bytesLt a.fileName b.fileName
   else if a.root.info.lex.begin != b.root.info.lex.begin then decide (a.root.info.lex.begin < b.root.info.lex.begin)
+  else if a.fileText != b.fileText then bytesLt a.fileText b.fileText
   else bytesLt a.name b.name
 
 def insertType (t : TypeEntry) : List TypeEntry → List TypeEntry
